@@ -307,6 +307,10 @@ class Evaluator:
     def __call__(self, t):
         return self.rec(t)
 
+    def partial(self, v):
+        """Hook for intermediate results that are not the value of a node (partial sums and products)."""
+        return v
+
     def rec(self, t):
         k = t[0]
         if k == "var":
@@ -318,12 +322,12 @@ class Evaluator:
         if k == "sum":
             r = self.rec(t[1])
             for c in t[2:]:
-                r = r + self.rec(c)
+                r = self.partial(r + self.rec(c))      # partial results in the order a left-to-right evaluation makes them
             return r
         if k == "prod":
             r = self.rec(t[1])
             for c in t[2:]:
-                r = r * self.rec(c)
+                r = self.partial(r * self.rec(c))
             return r
         if k == "quot":
             n = self.rec(t[1])
